@@ -390,16 +390,38 @@ fn exec_sim<T: Target>(p: &Prepared<T>, api: Api, sink: Sink, script: &Script, c
     Ok(Info { digest: h.get(), fired_any: !stats.fired.is_empty() || stats.shorts > 0, steps: (stats.calls + stats.flush_calls) as u64, fired: stats.fired.iter().map(|f| (f.what.clone(), f.at)).collect(), outcome })
 }
 
-fn set_fsize_limit(k: Option<u64>) {
+/// Returns the limit actually in force (None = the limit could not be set in this environment).
+fn set_fsize_limit(k: Option<u64>) -> Option<u64> {
     unsafe {
         let mut cur: libc::rlimit = std::mem::zeroed();
-        libc::getrlimit(libc::RLIMIT_FSIZE, &mut cur);
+        if libc::getrlimit(libc::RLIMIT_FSIZE, &mut cur) != 0 {
+            return None;
+        }
         cur.rlim_cur = match k {
             Some(k) => k.min(cur.rlim_max),
             None => cur.rlim_max,
         };
-        libc::setrlimit(libc::RLIMIT_FSIZE, &cur);
+        if libc::setrlimit(libc::RLIMIT_FSIZE, &cur) != 0 {
+            return None;
+        }
+        Some(cur.rlim_cur)
     }
+}
+
+/// Is /dev/full the device it should be (a write fails with ENOSPC)? Asked of the kernel directly.
+fn dev_full_works() -> bool {
+    use std::io::Write;
+    thread_local! { static OK: std::cell::Cell<Option<bool>> = const { std::cell::Cell::new(None) }; }
+    OK.with(|c| {
+        if c.get().is_none() {
+            let ok = match std::fs::OpenOptions::new().write(true).open("/dev/full") {
+                Ok(mut f) => matches!(f.write(&[0u8]), Err(e) if e.raw_os_error() == Some(libc::ENOSPC)),
+                Err(_) => false,
+            };
+            c.set(Some(ok));
+        }
+        c.get().unwrap()
+    })
 }
 
 fn exec_store<T: Target>(p: &Prepared<T>, body: &Body, scratch: &Path, ctx_counts: &mut Vec<String>) -> Result<Info, Violation> {
@@ -407,15 +429,28 @@ fn exec_store<T: Target>(p: &Prepared<T>, body: &Body, scratch: &Path, ctx_count
     let path = scratch.join("c13.bin");
     let _ = std::fs::remove_file(&path);
     let mut kstats: Option<(u32, u32, usize)> = None;
+    let mut eff_limit: Option<u64> = None;
     tracker::arm();
     let (res, expect_file): (Result<ser::Result<()>, String>, Option<Vec<u8>>) = match body {
-        Body::DevFull => (catch(|| tracker::in_lib(|| p.v.store(Path::new("/dev/full")))), None),
+        Body::DevFull => {
+            if !dev_full_works() {
+                let _ = tracker::disarm();
+                ctx_counts.push("env.dev_full_unavailable_skipped".into());
+                return Ok(Info { digest: 0, fired_any: false, steps: 0, fired: vec![], outcome: "skipped" });
+            }
+            (catch(|| tracker::in_lib(|| p.v.store(Path::new("/dev/full")))), None)
+        }
         Body::MissingDir => (catch(|| tracker::in_lib(|| p.v.store(&scratch.join("no-such-dir").join("x.bin")))), None),
         Body::FileLimit(k) => {
-            set_fsize_limit(Some(*k));
+            let Some(eff) = set_fsize_limit(Some(*k)) else {
+                let _ = tracker::disarm();
+                ctx_counts.push("env.rlimit_fsize_unavailable_skipped".into());
+                return Ok(Info { digest: 0, fired_any: false, steps: 0, fired: vec![], outcome: "skipped" });
+            };
             let r = catch(|| tracker::in_lib(|| p.v.store(&path)));
             set_fsize_limit(None);
-            (r, Some(p.b[..(*k as usize).min(len)].to_vec()))
+            eff_limit = Some(eff);
+            (r, Some(p.b[..(eff as usize).min(len)].to_vec()))
         }
         Body::Overwrite(extra) => {
             std::fs::write(&path, vec![0xEEu8; len + extra]).map_err(|e| Violation::new("C13/harness", e.to_string()))?;
@@ -456,6 +491,7 @@ fn exec_store<T: Target>(p: &Prepared<T>, body: &Body, scratch: &Path, ctx_count
             "file-open-error"
         }
         Body::FileLimit(k) => {
+            let k = &eff_limit.unwrap_or(*k);
             if (*k as usize) < len {
                 ctx_counts.push("fault.EFBIG(RLIMIT_FSIZE)".into());
                 "write-error"
@@ -525,7 +561,7 @@ fn drop_source<T: Target>(p: Prepared<T>) -> Option<Violation> {
 // ---------------------------------------------------------------------------------------
 // generation
 
-const BUF_CAPS: [usize; 7] = [1, 2, 3, 7, 8, 64, 8192];
+const BUF_CAPS: [usize; 8] = [0, 1, 2, 3, 7, 8, 64, 8192];
 
 fn seeded_script(r: &mut Rng, len: usize) -> Script {
     let mut steps = Vec::new();
